@@ -253,6 +253,43 @@ def dro_histories():
         a.st(a.le(x, 2.0))
 
     @reg
+    def probset_changed_after_solve_nothing_else(a):
+        """The probability set is replaced after a solve and NOTHING else is declared before the next formulation."""
+        p = a.scen(2)
+        x = a.dvar(())
+        z = a.rvar(())
+        F = a.ambiguity()
+        a.supp(F, [0], a.ge(z, -1.0), a.le(z, 1.0))
+        a.supp(F, [1], a.ge(z, 0.0), a.le(z, 3.0))
+        a.minsup(a.E(a.maxof(x * z, 1.0 - x)), F)
+        a.st(a.ge(x, -2.0))
+        a.st(a.le(x, 2.0))
+        if a.kind == 'real':
+            a.prob(F, a.ge(p, 0.25))
+            with quiet():
+                a.m.do_math()
+                a.m.solve(display=False)
+        a.prob(F, a.ge(p, np.array([0.75, 0.125])))
+
+    @reg
+    def support_changed_after_solve_nothing_else(a):
+        p = a.scen(2)
+        x = a.dvar(())
+        z = a.rvar(())
+        F = a.ambiguity()
+        a.prob(F, a.ge(p, 0.25))
+        a.minsup(a.E(a.maxof(x * z, 1.0 - x)), F)
+        a.st(a.ge(x, -2.0))
+        a.st(a.le(x, 2.0))
+        if a.kind == 'real':
+            a.supp(F, None, a.ge(z, -1.0), a.le(z, 1.0))
+            with quiet():
+                a.m.do_math()
+                a.m.solve(display=False)
+        a.supp(F, [0], a.ge(z, -1.0), a.le(z, 1.0))
+        a.supp(F, [1], a.ge(z, 0.0), a.le(z, 3.0))
+
+    @reg
     def repeated_formulation(a):
         p = a.scen(2)
         x = a.dvar(2)
